@@ -125,7 +125,23 @@ Record fitem := mkFI {
 
 Record fcase := mkFC {
   fc_items : list fitem;
+  fc_reloaded : list item;         (* everything the reloaded timeline stores, with multiplicity *)
   fc_slices : list (Z * Z * list ev * list ev) }.   (* a, b, m[a:b], reloaded[a:b] *)
+
+(* equality of two lists as multisets (every element of one used up by exactly one of the other) *)
+Fixpoint remove_first {A} (f : A -> bool) (l : list A) : option (list A) :=
+  match l with
+  | [] => None
+  | y :: r => if f y then Some r
+              else match remove_first f r with Some r' => Some (y :: r') | None => None end
+  end.
+Fixpoint multiset_eqb {A} (eqb : A -> A -> bool) (a b : list A) : bool :=
+  match a with
+  | [] => is_nil b
+  | x :: r => match remove_first (eqb x) b with Some b' => multiset_eqb eqb r b' | None => false end
+  end.
+Definition somes {A} (l : list (option A)) : list A :=
+  flat_map (fun o => match o with Some x => [x] | None => [] end) l.
 
 Definition bind {A B} (a : option A) (f : A -> option B) : option B :=
   match a with Some x => f x | None => None end.
@@ -146,15 +162,25 @@ Definition corr_item (i : fitem) : bool :=
   opt_eqb item_eqb st (fi_stored i) && opt_eqb vevent_eqb ve (fi_vevent i) &&
   opt_eqb item_eqb ld (fi_loaded i).
 
-Definition corr_files (c : fcase) : bool := forallb corr_item (fc_items c).
+(* the timeline as a whole: the model's round trip over the LIST of items (each stored item
+   written once and read once) gives the multiset of items the reloaded timeline stores *)
+Definition model_reloaded (c : fcase) : list item :=
+  somes (map (fun i => bind (bind (readd (fi_item i)) to_vevent)
+                            (fun v => load_vevent (if fi_named i then v else unresolved v)))
+             (fc_items c)).
+
+Definition corr_files (c : fcase) : bool :=
+  forallb corr_item (fc_items c) && multiset_eqb item_eqb (model_reloaded c) (fc_reloaded c).
 
 (* C19 (a) on what the implementation did: each stored item came back denoting the same thing,
-   and every probed slice of the reloaded timeline is identical *)
+   the reloaded timeline stores the same items with the same multiplicities (two identical bookings
+   stay two), and every probed slice of the reloaded timeline is identical *)
 Definition oracle_files (c : fcase) : bool :=
   forallb (fun i => match fi_stored i, fi_loaded i with
                     | Some a, Some b => same_item a b
                     | _, _ => false
                     end) (fc_items c) &&
+  multiset_eqb same_item (somes (map fi_stored (fc_items c))) (fc_reloaded c) &&
   forallb (fun s => let '(_, _, x, y) := s in slices_equal x y) (fc_slices c).
 
 (* signatures of the recorded findings *)
